@@ -201,7 +201,8 @@ ScaleParams ==
                       <<"strchain", n, k, "-">>, <<"shared", n, k, "-">>, <<"longlist", n, k, "-">>,
                       <<"longstr", n, k, "-">>, <<"deep", n, k, "-">>, <<"manyargs", n, k, "-">>,
                       <<"manyvars", n, k, "-">>, <<"manyprops", n, k, "-">> } : k \in Ks(n) } : n \in Sizes }
-SelectedParams == {p \in ScaleParams : p[1] \in Families}
+\* (TLC's own recursion limits the nesting depth it can evaluate: `deep` stops at 33)
+SelectedParams == {p \in ScaleParams : p[1] \in Families /\ (p[1] = "deep" => p[2] <= 33)}
 
 ScaleProgOf(p) ==
     CASE p[1] = "range"     -> RangeProg(p[2], p[3])
